@@ -526,6 +526,9 @@ impl Prop for C10 {
             cx.label("prior-applied-state");
             spec.tree = ws.states[first].clone();
             spec.applied = Some(crate::bytes::B(ws.names()[..first].iter().map(|n| format!("{}\n", n)).collect::<String>().into_bytes()));
+            if ws.feat.iter().any(|f| f == UNTERMINATED_APPLIED) {
+                spec.applied.as_mut().unwrap().0.pop();
+            }
         }
         spec.materialise(&root);
         // real run on a copy
